@@ -560,7 +560,11 @@ def _b3_runs(ctx):
 
 
 def _b3_witness(r):
-    return {"project": r["proj"].to_json(), "schedule": r["schedule"], "njob": r["njob"], "resources": r["avail"],
+    proj = r["proj"].to_json()
+    # a long run of one character (the file that takes a while to hash) is stored compactly
+    proj["sources"] = {p: (f"@repeat:{c[0]}:{len(c)}" if len(c) > 4096 and c == c[0] * len(c) else c)
+                       for p, c in proj["sources"].items()}
+    return {"project": proj, "schedule": r["schedule"], "njob": r["njob"], "resources": r["avail"],
             "commands": [[c["label"], c["start"], c["stop"], c["resources"], [x[0] for x in c["rpc"]]]
                          for c in r["res"].commands]}
 
@@ -575,8 +579,8 @@ def _loop_correspondence(ctx):
         if v is None:
             ctx.add_failure("correspondence", "loop:search", "job-loop:search-not-evaluated",
                             "shortest_overrun could not be evaluated inside Coq", witness=None)
-        elif v.strip().startswith("Some"):
-            evs = re.sub(r"\s+", " ", v.strip()[4:].strip())
+        elif "Some" in v:
+            evs = re.sub(r"\s+", " ", v.strip().strip("()").strip()[4:].strip())
             ctx.count("loop:model_overrun")
             ctx.add_failure("correspondence", "loop:model-overrun", f"job-loop:slot-test-admits-overrun:njob={njob}",
                             f"the loop model built from the slot tests of Builder.job_loop ({getattr(ctx, 'facts', {}).get('facts', {}).get('slot_tests')}) "
@@ -945,8 +949,20 @@ def search(ctx):
 def replay(ctx, obj):
     w = obj["failure"].get("witness") or {}
     print("replaying", json.dumps(w)[:400])
+    if "loop_events" in w:
+        # a model-level history of the job loop: the directed scenario that realises it on the real serve()
+        njob = w["njob"]
+        proj, avail, din = LP.scenario_amend_slot(njob, njob)
+        res, rec = LP.run_build(proj, njob, avail, {"seed": 1, "points": ["start", "end"]})
+        for c in res.commands:
+            print(c["label"], c["start"], c["stop"], [x[0] for x in c["rpc"]])
+        print("max commands executing at once:", res.max_running, "njob:", njob)
     if "project" in w:
         from . import e3
+        for p, c in list(w["project"].get("sources", {}).items()):
+            if c.startswith("@repeat:"):
+                _, ch, n = c.split(":")
+                w["project"]["sources"][p] = ch * int(n)
         proj = e3.Project.from_json(w["project"])
         resources = w["resources"] if isinstance(w["resources"], str) else ",".join(f"{k}:{v}" for k, v in w["resources"].items())
         with tempfile.TemporaryDirectory(prefix="verif-c12-") as tmp:
